@@ -5,6 +5,7 @@ use crate::engine::Failure;
 use crate::props::gc::GcEngine;
 use crate::props::multi::MultiEngine;
 use crate::props::prefixes::PrefixEngine;
+use crate::props::script::ScriptEngine;
 use crate::props::twin::{TwinEngine, TwinKind};
 use crate::props::hexlab::{ConcatEngine, HexEngine, LabelEngine, LabelEnumEngine};
 use serde_json::Value;
@@ -24,7 +25,7 @@ pub struct Meta {
     pub subs: Vec<Sub>,
 }
 
-pub const PROPS: &[&str] = &["C01", "C02", "C03", "C04", "C05", "C08", "C09", "C10", "C15", "C16", "C17", "C19"];
+pub const PROPS: &[&str] = &["C01", "C02", "C03", "C04", "C05", "C08", "C09", "C10", "C14", "C15", "C16", "C17", "C19"];
 
 pub fn leak(s: &str) -> &'static str {
     Box::leak(s.to_string().into_boxed_str())
@@ -86,6 +87,12 @@ pub fn meta(prop: &str) -> Option<Meta> {
             assumptions: &["differential: original vs clone", "the generator is guided by the reference model"],
             subs: vec![Sub { id: "twin", quick: 4_000, thorough: 800_000 }],
         },
+        "C14" => Meta {
+            level: "exploration",
+            rule: "programs of <=25 ADD/BIND/PUT commands over literal ids and $variables are generated from model-guided histories and rendered with generated legal formatting (blanks/tabs/newlines around tokens, only blanks before '(', optional ν prefixes, newline-terminated # comments between commands incl. comments containing ';' and parentheses, optional final ';', empty commands, hex in upper/lower case separated by '-', blank or nothing). Well-formed text: graph A = deploy_to(text) and graph B = the direct calls (each variable bound to one next_id() at its first textual use) must have the returned count = number of commands, equal complete observations, and identical traces through the drain epilogue. Half of the cases carry one corruption (character delete/insert/replace, or a structured fault: unknown/lower-case opcode, missing parenthesis, missing argument, non-numeric or overflowing id, odd or non-hex data, label longer than 8, bad α index, missing ';'); an independent strict parser of the documented grammar classifies the corrupted text: well-formed => same equivalence oracle (if in-domain), malformed at command k => Err, no panic, and A equals the first k commands applied directly, unspecified => skipped and counted. Non-trivial: >=3 commands with a variable used twice, a comment and a ν prefix; or a text classified malformed.",
+            assumptions: &["the strict parser in harness/src/props/script.rs is a faithful reading of the documented grammar; everything it is unsure about is classified unspecified and not judged", "differential: deploy_to vs direct calls"],
+            subs: vec![Sub { id: "scriptgen", quick: 6_000, thorough: 1_000_000 }],
+        },
         "C15" => Meta {
             level: "exploration",
             rule: "per case: generated 12-byte content, 8-byte padding, 4 random + 10 special i64, 4 random + 12 special f64 bit patterns; for every length 0..=12 and every representation (canonical, heap Vector, inline array with non-zero padding) EVERY index i in {0..=14, usize::MAX-1, usize::MAX} for [i], byte_at, tail, [i..], [..i], [..=i], IndexMut and every pair (i,j) of those for [i..j], [i..=j] is compared with the same operation on the byte slice (equal result or both panic); plus bytes/len/to_vec/print/Display/Debug/[..]/eq across representations/from_str(print)/to_i64/to_f64/to_utf8/to_bool and the From conversions. The index space is enumerated completely per content. Distinct non-trivial = distinct (bytes, representation, padding) triples whose whole index space was checked.",
@@ -136,6 +143,7 @@ pub fn run_sub(
         ("C09", "prefixes") => campaign(&PrefixEngine { all_prefixes: tier == Tier::Thorough }, tier, seed, cases, known, inflight, 100),
         ("C10", "twin") => campaign(&TwinEngine { kind: TwinKind::Clone }, tier, seed, cases, known, inflight, max_shrink),
         ("C19", "multi-config") => campaign(&MultiEngine, tier, seed, cases, known, inflight, 600),
+        ("C14", "scriptgen") => campaign(&ScriptEngine, tier, seed, cases, known, inflight, 800),
         ("C15", "hexenum") => campaign(&HexEngine, tier, seed, cases, known, inflight, 50),
         ("C16", "concatenum") => {
             let e = ConcatEngine { tolerate: known.open.keys().cloned().collect() };
@@ -160,6 +168,7 @@ pub fn replay(prop: &str, engine: &str, payload: &Value) -> Result<Option<Failur
         ("C09", "prefixes") => Ok(PrefixEngine { all_prefixes: true }.replay(payload)),
         ("C10", "twin") => Ok(TwinEngine { kind: TwinKind::Clone }.replay(payload)),
         ("C19", "multi-config") => Ok(MultiEngine.replay(payload)),
+        ("C14", "scriptgen") => Ok(ScriptEngine.replay(payload)),
         ("C15", "hexenum") => Ok(HexEngine.replay(payload)),
         ("C16", "concatenum") => Ok(ConcatEngine { tolerate: Default::default() }.replay(payload)),
         ("C17", "labels" | "labels-enum") => Ok(LabelEngine.replay(payload)),
@@ -179,6 +188,7 @@ pub fn run_case(prop: &str, engine: &str, case: &Value) -> Result<Option<Failure
         ("C09", "prefixes") => Ok(PrefixEngine { all_prefixes: true }.run(&serde_json::from_value(case.clone()).map_err(|e| e.to_string())?).failure),
         ("C10", "twin") => Ok(TwinEngine { kind: TwinKind::Clone }.run(&serde_json::from_value(case.clone()).map_err(|e| e.to_string())?).failure),
         ("C19", "multi-config") => Ok(MultiEngine.run(&serde_json::from_value(case.clone()).map_err(|e| e.to_string())?).failure),
+        ("C14", "scriptgen") => Ok(ScriptEngine.run(&serde_json::from_value(case.clone()).map_err(|e| e.to_string())?).failure),
         ("C15", "hexenum") => Ok(HexEngine.replay(case)),
         ("C16", "concatenum") => Ok(ConcatEngine { tolerate: Default::default() }.replay(case)),
         ("C17", "labels" | "labels-enum") => Ok(LabelEngine.replay(case)),
